@@ -499,8 +499,8 @@ func (in *Interp) exec(fr *frame, ins ssa.Instruction) {
 	case *ssa.Slice:
 		in.set(fr, x, in.sliceOp(fr, x))
 	case *ssa.MakeSlice:
-		ln := term(in.get(fr, x.Len))
-		cp := term(in.get(fr, x.Cap))
+		ln := in.idx64(term(in.get(fr, x.Len)), x.Len.Type())
+		cp := in.idx64(term(in.get(fr, x.Cap)), x.Cap.Type())
 		et := under(x.Type()).(*types.Slice).Elem()
 		n := in.concretizeLen(cp, "make")
 		if int64(n) < 0 || n > 1<<24 {
